@@ -51,7 +51,7 @@ struct less_icase_desc
 {
     bool operator()(tlx::string_view a, tlx::string_view b) const
     {
-        return !less_icase(a, b);
+        return less_icase(b, a);
     }
 };
 
